@@ -48,8 +48,9 @@ class Contract:
                  setup=None, modifies=None, call_requires=None, result_maker=None, args=None,
                  timeout_ms=None, max_paths=None, method_of=None, build=None, fuel=None, note="",
                  gen=None, nl_uf=False, tiers=("quick", "thorough"), returns_expr=None, group_axioms=False,
-                 int_bytes_expand=8, bcat_unit=False):
+                 int_bytes_expand=8, bcat_unit=False, bv_bytes_direct=False):
         self.bcat_unit = bcat_unit                # add  b_cat(x, empty) == x == b_cat(empty, x)  (parsing loops over suffix-recursive specs)
+        self.bv_bytes_direct = bv_bytes_direct    # bit-vector mode: int.from_bytes assembles the word from the byte terms
         self.int_bytes_expand = int_bytes_expand  # int.from_bytes of an opaque string of at most this many bytes is tied to its bytes
         self.group_axioms = group_axioms          # add the commutative-monoid axioms of the abstract point group (C03.4)
         self.returns_expr = returns_expr          # call sites use this spec term as the result (must be one of the ensures)
@@ -367,6 +368,7 @@ def verify_contract(c, reg=REG, timeout_ms=10000, max_paths=None, concrete=None)
         m.top_fn = fn
         m.nl_uf = getattr(c, "nl_uf", False)
         m.int_bytes_expand = getattr(c, "int_bytes_expand", 8)
+        m.bv_bytes_direct = getattr(c, "bv_bytes_direct", False)
         pid = [None]
         seen = {}
 
